@@ -1,0 +1,148 @@
+//go:build verif
+
+package utils
+
+import "time"
+
+// Contracts for candle-window arithmetic (C31), checked by /verif/govc. Compiled only with -tags=verif.
+
+func verifAssert(bool) {}
+
+// ---- additions to the time model (TRUSTED assumptions about package time) ----
+// civilMonth/civilDay: civil month and day of instant a in location l; civilDate(y, m, d, l): abs of 00:00 of that
+// civil day; zoneOffset(a, l): UTC offset in ns in force at instant a; Z = 62135596800e9 ns from year 1 to 1970.
+
+//@ ghost func civilMonth(a int, l int) int
+//@ ghost func civilDay(a int, l int) int
+//@ ghost func validDate(y int, m int, d int) bool
+//@ ghost func zoneOffset(a int, l int) int
+// isoKey: number of the Monday-based civil week of instant a in location l (counted from the zero time); isoYk/isoWk:
+// ISO year and week of week number k; isoKeyOf: their inverse (distinct weeks have distinct (ISO year, ISO week) pairs)
+//@ ghost func isoKey(a int, l int) int = div(a + zoneOffset(a, l) + 62135596800000000000, 604800000000000)
+//@ ghost func isoYk(k int) int
+//@ ghost func isoWk(k int) int
+//@ ghost func isoKeyOf(y int, w int) int
+
+//@ func (time.Time).Truncate
+//@ trusted "stdlib: rounds down to a multiple of d counted from the zero time (1 January of year 1, a Monday); d <= 0 returns t"
+//@ pure
+//@ ensures loc(result) == loc(t)
+//@ ensures d > 0 ==> abs(result) == abs(t) - mod(abs(t) + 62135596800000000000, d)
+//@ ensures d <= 0 ==> abs(result) == abs(t)
+
+//@ func (time.Time).Date
+//@ trusted "stdlib time model: civil calendar as uninterpreted functions with axioms"
+//@ pure
+//@ ensures year == civilYear(abs(t), loc(t)) && month == civilMonth(abs(t), loc(t)) && day == civilDay(abs(t), loc(t))
+
+//@ func (time.Time).Month
+//@ trusted "stdlib time model"
+//@ pure
+//@ ensures result == civilMonth(abs(t), loc(t))
+
+//@ func (time.Time).ISOWeek
+//@ trusted "stdlib time model: two instants have the same ISO year and week iff they lie in the same Monday-based civil week of the location"
+//@ pure
+//@ ensures year == isoYk(isoKey(abs(t), loc(t))) && week == isoWk(isoKey(abs(t), loc(t)))
+
+// A-FIXED (fixed-offset zone): the civil day of an instant starts at or before it and lasts 24 h
+//@ axiom #dayBracket: forallint(a, l, pattern(civilDay(a, l)), validDate(civilYear(a, l), civilMonth(a, l), civilDay(a, l)) && civilDate(civilYear(a, l), civilMonth(a, l), civilDay(a, l), l) <= a && a < civilDate(civilYear(a, l), civilMonth(a, l), civilDay(a, l), l) + 86400000000000)
+//@ axiom #monthBracket: forallint(a, l, pattern(civilMonth(a, l)), 1 <= civilMonth(a, l) && civilMonth(a, l) <= 12 && validDate(civilYear(a, l), civilMonth(a, l), 1) && civilDate(civilYear(a, l), civilMonth(a, l), 1, l) <= a && (civilMonth(a, l) < 12 ==> (validDate(civilYear(a, l), civilMonth(a, l) + 1, 1) && a < civilDate(civilYear(a, l), civilMonth(a, l) + 1, 1, l))) && (civilMonth(a, l) == 12 ==> (validDate(civilYear(a, l) + 1, 1, 1) && a < civilDate(civilYear(a, l) + 1, 1, 1, l))))
+//@ axiom #dateInverse: forallint(y, m, d, l, pattern(civilDate(y, m, d, l)), validDate(y, m, d) ==> (civilYear(civilDate(y, m, d, l), l) == y && civilMonth(civilDate(y, m, d, l), l) == m && civilDay(civilDate(y, m, d, l), l) == d))
+//@ axiom #isoWeek: forallint(k, pattern(isoWk(k)), isoKeyOf(isoYk(k), isoWk(k)) == k)
+
+// ---- the functions under contract ----
+
+// cdOK: the representation invariant CandleDurationFromString establishes (regexp, not verified): a known suffix and
+// duration = multiplier * unit for the suffixes that have a unit ("M" has none: duration 0).
+//@ ghost func unitOf(s string) int
+
+//@ func (*CandleDuration).Truncate
+//@ props C31
+//@ ensures #loc: loc(result) == loc(ts)
+//@ ensures #day: cd.suffix == "D" ==> abs(result) == civilDate(civilYear(abs(ts), loc(ts)), civilMonth(abs(ts), loc(ts)), civilDay(abs(ts), loc(ts)), loc(ts))
+//@ ensures #month: cd.suffix == "M" ==> abs(result) == civilDate(civilYear(abs(ts), loc(ts)), civilMonth(abs(ts), loc(ts)), 1, loc(ts))
+//@ ensures #other: (cd.suffix != "D" && cd.suffix != "M" && cd.duration > 0) ==> abs(result) == abs(ts) - mod(abs(ts) + 62135596800000000000, cd.duration)
+
+//@ func (*CandleDuration).Ceil
+//@ props C31
+//@ ensures #loc: loc(result) == loc(ts)
+//@ ensures #day: cd.suffix == "D" ==> abs(result) == civilDate(civilYear(abs(ts) + 86400000000000, loc(ts)), civilMonth(abs(ts) + 86400000000000, loc(ts)), civilDay(abs(ts) + 86400000000000, loc(ts)), loc(ts))
+//@ ensures #month: (cd.suffix == "M" && civilMonth(abs(ts), loc(ts)) < 12) ==> abs(result) == civilDate(civilYear(abs(ts), loc(ts)), civilMonth(abs(ts), loc(ts)) + 1, 1, loc(ts))
+//@ ensures #december: (cd.suffix == "M" && civilMonth(abs(ts), loc(ts)) == 12) ==> abs(result) == civilDate(civilYear(abs(ts), loc(ts)) + 1, 1, 1, loc(ts))
+//@ ensures #other: (cd.suffix != "D" && cd.suffix != "M" && cd.duration > 0) ==> abs(result) == abs(ts) + cd.duration - mod(abs(ts) + cd.duration + 62135596800000000000, cd.duration)
+
+// what IsWithin computes, branch by branch ("Y" and the cross-year part of "M" are not stated)
+// cdWithin(cd, ts, tsloc, start): the value IsWithin returns, as an abstraction for callers (candle contracts C21/C22)
+//@ ghost func cdWithin(cd int, ts int, tsloc int, start int) bool
+
+//@ func (*CandleDuration).IsWithin
+//@ props C31
+//@ modifies none
+//@ marks #abstract: result == cdWithin(cd, abs(ts), loc(ts), abs(start))
+//@ ensures #day: cd.suffix == "D" ==> result == (civilYear(abs(ts), loc(ts)) == civilYear(abs(start), loc(ts)) && civilMonth(abs(ts), loc(ts)) == civilMonth(abs(start), loc(ts)) && civilDay(abs(ts), loc(ts)) == civilDay(abs(start), loc(ts)))
+//@ ensures #week: cd.suffix == "W" ==> result == (isoKey(abs(ts), loc(ts)) == isoKey(abs(start), loc(start)))
+//@ ensures #sameMonth: (cd.suffix == "M" && civilYear(abs(ts), loc(ts)) == civilYear(abs(start), loc(start)) && civilMonth(abs(ts), loc(ts)) == civilMonth(abs(start), loc(start))) ==> result
+//@ ensures #earlierMonth: (cd.suffix == "M" && civilYear(abs(ts), loc(ts)) == civilYear(abs(start), loc(start)) && civilMonth(abs(ts), loc(ts)) < civilMonth(abs(start), loc(start))) ==> !result
+//@ ensures #earlierYear: (cd.suffix == "M" && civilYear(abs(ts), loc(ts)) < civilYear(abs(start), loc(start))) ==> !result
+//@ ensures #other: (cd.suffix != "D" && cd.suffix != "W" && cd.suffix != "M" && cd.suffix != "Y" && cd.duration > 0) ==> result == (abs(ts) - mod(abs(ts) + 62135596800000000000, cd.duration) == abs(start) && loc(ts) == loc(start))
+
+// C31, first sentence, for the sub-day, hour, day and month suffixes in a fixed-offset zone: the window start is at or
+// before the timestamp, the window end is after it, and the timestamp is reported as inside its own window.
+func lemmaWindow(cd *CandleDuration, ts time.Time) {
+	start := cd.Truncate(ts)
+	end := cd.Ceil(ts)
+	verifAssert(!start.After(ts))        // #startAtOrBefore
+	verifAssert(end.After(ts))           // #endAfter
+	verifAssert(cd.IsWithin(ts, start))  // #insideOwnWindow
+	verifAssert(!cd.IsWithin(ts, end) || cd.suffix == "M") // #notInsideNextWindow
+}
+
+//@ lemma lemmaWindow
+//@ props C31
+//@ requires cd != nil
+//@ requires cd.suffix == "Sec" || cd.suffix == "Min" || cd.suffix == "H" || cd.suffix == "D" || cd.suffix == "M"
+//@ requires (cd.suffix == "D" || cd.suffix == "M") || cd.duration > 0
+//@ requires cd.multiplier >= 1
+//@ requires 0 - 4611686018427387904 < abs(ts) && abs(ts) < 4611686018427387904
+
+// Weekly candles in UTC: ts.Truncate(7 days) is the Monday 00:00 UTC of ts's ISO week.
+func lemmaWindowWeekUTC(cd *CandleDuration, ts time.Time) {
+	start := cd.Truncate(ts)
+	end := cd.Ceil(ts)
+	verifAssert(!start.After(ts))       // #startAtOrBefore
+	verifAssert(end.After(ts))          // #endAfter
+	verifAssert(cd.IsWithin(ts, start)) // #insideOwnWindow
+}
+
+//@ lemma lemmaWindowWeekUTC
+//@ props C31
+//@ requires cd != nil && cd.suffix == "W" && cd.duration == 604800000000000 && cd.multiplier == 1
+// UTC: the zone offset is 0 at every instant
+//@ requires forallint(a, pattern(zoneOffset(a, loc(ts))), zoneOffset(a, loc(ts)) == 0)
+//@ requires 0 - 4611686018427387904 < abs(ts) && abs(ts) < 4611686018427387904
+
+// The same for a weekly candle in any other zone (zone offsets are at most 14 h either way).
+func lemmaWindowWeekAnyZone(cd *CandleDuration, ts time.Time) {
+	start := cd.Truncate(ts)
+	verifAssert(cd.IsWithin(ts, start)) // #insideOwnWindow
+}
+
+//@ lemma lemmaWindowWeekAnyZone
+//@ props C31
+//@ requires cd != nil && cd.suffix == "W" && cd.duration == 604800000000000 && cd.multiplier == 1
+//@ requires 0 - 50400000000000 <= zoneOffset(abs(ts), loc(ts)) && zoneOffset(abs(ts), loc(ts)) <= 50400000000000
+// a fixed-offset zone: the same offset at the timestamp and at its window start
+//@ requires zoneOffset(abs(ts) - mod(abs(ts) + 62135596800000000000, 604800000000000), loc(ts)) == zoneOffset(abs(ts), loc(ts))
+//@ requires 0 - 4611686018427387904 < abs(ts) && abs(ts) < 4611686018427387904
+
+// C31, last sentence: the timeframe chosen for querying a duration divides that duration.
+//@ globalfact #timeframes: len(Timeframes) == 11 && forall(k, 0, len(Timeframes), Timeframes[k] != nil && Timeframes[k].Duration > 0) && Timeframes[0].Duration == 1000000000
+
+//@ func (*CandleDuration).QueryableTimeframe
+//@ props C31
+//@ requires #nonneg: cd.duration >= 0
+//@ loop 0 invariant #idx: 0 - 1 <= i && i < len(Timeframes)
+//@ loop 0 invariant #noneAbove: forall(k, i + 1, len(Timeframes), mod(cd.duration, Timeframes[k].Duration) != 0)
+//@ ensures #divides: cd.suffix != "M" ==> (existsint(k, 0 <= k && k < len(Timeframes) && result == Timeframes[k].String && mod(cd.duration, Timeframes[k].Duration) == 0) || (result == "1D" && mod(cd.duration, 1000000000) != 0))
+//@ ensures #month: cd.suffix == "M" ==> result == "1D"
